@@ -37,7 +37,8 @@ ASSUMPTIONS = [
     "blocking at once, limited timeouts with true concurrency, short/refused writes and the agreement of the reference engine "
     "with OpenSSL rest on the pairing matrix run here (complete in the thorough tier)",
 ]
-TRUSTED = ["system OpenSSL 3 (libssl/libcrypto)", "link-time interposition of SSL_read/SSL_write_ex/BIO_get_data in the harness",
+TRUSTED = ["tools/cxx2lean_tls.py stage 5 (DESIGN.md 0.7.4): the TLS glue over Gen.TlsWorld (fields as world state, libssl and the socket layer as world calls, UnderDeadline inlined, switch / counted for loops, asserts skipped = NDEBUG); Model/GenTlsWorld.lean reads Model/Tls.lean + Net.lean as that interface (SSL_ERROR_* numbers, ms clock in ns, interp as the engine call); the retry loops Read/Write and interp are not tied",
+           "system OpenSSL 3 (libssl/libcrypto)", "link-time interposition of SSL_read/SSL_write_ex/BIO_get_data in the harness",
            "the run-time property predicate is lean/SockModel/Spec/C18.lean (typed observations Obs, specStep / specRun / specFinal; "
            "Drive/C18.lean only parses lines into Obs); its event-by-event part specRun is proved to accept every trace of the glue model "
            "(spec_holds_on_model_partial); NOT linked to the model: the end-of-case clauses specFinal (wire format = OpenSSL's output, "
